@@ -99,7 +99,9 @@ func (s *Server) listenerLoop(ctx context.Context, listener net.Listener) {
 			continue
 		}
 
-		if err := s.stats.serverLimitExceeded(); err != nil {
+		// The slot is taken here (and not after the SSH handshake), so that connections
+		// which are still busy with the handshake count too.
+		if err := s.stats.tryIncrementConnections(); err != nil {
 			dlog.Server.Error(err)
 			conn.Close()
 			continue
@@ -110,6 +112,9 @@ func (s *Server) listenerLoop(ctx context.Context, listener net.Listener) {
 
 func (s *Server) handleConnection(ctx context.Context, conn net.Conn) {
 	dlog.Server.Info("Handling connection")
+	// Give the slot back when the connection is over, however it ended (failed
+	// handshake, no session at all, any number of shell requests).
+	defer s.stats.decrementConnections()
 
 	sshConn, chans, reqs, err := gossh.NewServerConn(conn, s.sshServerConfig)
 	if err != nil {
@@ -117,7 +122,6 @@ func (s *Server) handleConnection(ctx context.Context, conn net.Conn) {
 		return
 	}
 
-	s.stats.incrementConnections()
 	go gossh.DiscardRequests(reqs)
 	for newChannel := range chans {
 		go s.handleChannel(ctx, sshConn, newChannel)
@@ -207,7 +211,6 @@ func (s *Server) handleRequests(ctx context.Context, sshConn gossh.Conn,
 				if err := sshConn.Wait(); err != nil && err != io.EOF {
 					dlog.Server.Error(user, err)
 				}
-				s.stats.decrementConnections()
 				dlog.Server.Info(user, "Good bye Mister!")
 				terminate()
 			}()
